@@ -6,6 +6,8 @@
 package c19
 
 import (
+	"sync/atomic"
+	"syscall"
 	"context"
 	"errors"
 	"fmt"
@@ -95,9 +97,13 @@ func genTimeline(t *rapid.T, label string) timeline {
 // sparse3 turns tl into a one-writer time-line with a 3 s interval and a writer that is often silent
 // for more than a second after a boundary; the outage covers one boundary.
 func sparse3(t *rapid.T, label string, tl *timeline) {
-	*tl = timeline{IntervalS: 3, Writers: 1, PeriodMS: []int{rapid.SampledFrom([]int{1300, 1700, 1100}).Draw(t, label+"periodS")}, DurMS: 10200, ViaLogger: tl.ViaLogger, AsFile: tl.AsFile}
-	from := rapid.IntRange(300, 5500).Draw(t, label+"fromS")
-	tl.Outages = []window{{from, from + rapid.SampledFrom([]int{1900, 2600, 1200}).Draw(t, label+"lenS")}}
+	// The time-line starts 100 ms after a boundary of the 3 s interval (Aligned); the writer's period
+	// puts its first write after the next boundary B1 a good second behind it, inside the outage
+	// (the attempt that fails comes late in its interval); the directory is back before B2, and the
+	// first write after B2 comes earlier in its interval than the failing one did in its own.
+	period := rapid.SampledFrom([]int{1350, 1330, 1340}).Draw(t, label+"periodS") // writes at +0.1, 1.45, 2.8, 4.15 (B1+1.15), 5.5, 6.85 (B2+0.85) s
+	*tl = timeline{IntervalS: 3, Aligned: true, Companion: 3, Writers: 1, PeriodMS: []int{period}, DurMS: 8400, ViaLogger: tl.ViaLogger, AsFile: tl.AsFile}
+	tl.Outages = []window{{2950 + rapid.IntRange(0, 600).Draw(t, label+"fromS"), 5300 + rapid.IntRange(0, 350).Draw(t, label+"toS")}}
 }
 
 // saturated turns tl into a time-line through an asynchronous, blocking root logger that flooders
@@ -724,4 +730,184 @@ func TestC19_BoundaryRace(t *testing.T) {
 		}
 		_ = os.RemoveAll(parent)
 	})
+}
+
+// TestC19_StalledRotation: the harness owns a stall inside a rotation. The name of the file for the
+// next second S1 is taken by a named pipe, so the rotation at S1 hangs in open(2) until the harness
+// opens the pipe's other end. Meanwhile the directory goes away and the boundary S2 passes: the
+// rotation for S2 fails (or waits for the stalled one and then fails). Then the stalled rotation
+// is released and the directory comes back, still inside S2. A rotation that finishes late must
+// not bring its own, older interval back: no file may be created for S2 in mid-interval - creation
+// is attempted again at the next boundary - and every call returns once the stall is over.
+func TestC19_StalledRotation(t *testing.T) {
+	vk.Rule(rule)
+	base := vk.Scratch("c19s")
+	batch := 0
+	rapid.Check(t, func(t *rapid.T) {
+		const K = 3
+		type sc struct{ awayMS, releaseMS, restoreMS, periodMS int }
+		scs := make([]sc, K)
+		for i := range scs {
+			scs[i].awayMS = rapid.IntRange(80, 600).Draw(t, fmt.Sprintf("away%d", i))                        // after S1
+			scs[i].releaseMS = rapid.IntRange(250, 450).Draw(t, fmt.Sprintf("release%d", i))                 // after S2: every writer has written after S2 by then
+			// the directory is back right after the release, before the writers' next write: what that
+			// write finds decides (an attempt made while the directory is still away fails again and
+			// hides a wrongly restored interval)
+			scs[i].restoreMS = scs[i].releaseMS + rapid.IntRange(2, 12).Draw(t, fmt.Sprintf("restore%d", i)) // after S2
+			scs[i].periodMS = rapid.SampledFrom([]int{90, 150, 60}).Draw(t, fmt.Sprintf("period%d", i))
+		}
+		batch++
+		errs := make([]error, K)
+		var wg sync.WaitGroup
+		for i := range scs {
+			wg.Add(1)
+			go func() {
+				defer wg.Done()
+				parent := filepath.Join(base, fmt.Sprintf("b%d_%d", batch, i))
+				_ = os.MkdirAll(parent, 0o755)
+				errs[i] = stalledRotation(parent, scs[i].awayMS, scs[i].releaseMS, scs[i].restoreMS, scs[i].periodMS)
+				if errs[i] == nil {
+					_ = os.RemoveAll(parent)
+				}
+			}()
+		}
+		wg.Wait()
+		for i, err := range errs {
+			vk.Eval()
+			vk.Class("stalled-rotation")
+			vk.NonTrivial(fmt.Sprintf("stalled-rotation/%+v", scs[i]))
+			if err != nil {
+				if strings.Contains(err.Error(), "VERIF-INCONCLUSIVE") {
+					t.Fatalf("%v", err)
+				}
+				if strings.Contains(err.Error(), "VERIF-HANG") {
+					vk.HardFail("c19-hang", map[string]any{"scenario": scs[i]}, "C19: %v; scenario %+v", err, scs[i])
+				}
+				p := vk.SaveCase("c19", map[string]any{"scenario": fmt.Sprintf("%+v", scs[i]), "error": err.Error(), "schedule_dependent": true})
+				t.Fatalf("VERIF-VIOLATION C19: %v\nscenario: %+v (case %s)", err, scs[i], p)
+			}
+		}
+	})
+}
+
+func stalledRotation(parent string, awayMS, releaseMS, restoreMS, periodMS int) error {
+	dir := filepath.Join(parent, "logs")
+	away := filepath.Join(parent, "logs.away")
+	_ = os.MkdirAll(dir, 0o755)
+	now := time.Now()
+	s1 := now.Truncate(time.Second).Add(time.Second)
+	if s1.Sub(now) < 300*time.Millisecond {
+		time.Sleep(s1.Sub(now) + 20*time.Millisecond)
+		s1 = s1.Add(time.Second)
+	}
+	s2 := s1.Add(time.Second)
+	fifo := "roll.log." + s1.Format("20060102150405")
+	if err := syscall.Mkfifo(filepath.Join(dir, fifo), 0o644); err != nil {
+		return fmt.Errorf("VERIF-INCONCLUSIVE: mkfifo: %v", err)
+	}
+	a := &log.RollingFileAppender{AppenderBase: log.AppenderBase{Name: "r"}, Layout: &log.TextLayout{BaseLayout: log.BaseLayout{FileLineLength: 48}},
+		FileDir: dir, FileName: "roll.log", Rotation: log.TimeRotation{Interval: time.Second}, MaxAge: 100}
+	if err := a.Start(); err != nil {
+		return fmt.Errorf("VERIF-INCONCLUSIVE: %v", err)
+	}
+	var mu sync.Mutex
+	var firstPanic any
+	// paused: no new write is issued; inflight: calls that have not returned yet (the harness lets
+	// the stalled ones finish before it brings the directory back, so that what the next write does
+	// is not a matter of timing)
+	var paused atomic.Bool
+	var inflight, afterS2 atomic.Int32
+	end := s2.Add(time.Duration(restoreMS+450) * time.Millisecond)
+	var wg sync.WaitGroup
+	for w := 0; w < 2; w++ {
+		wg.Add(1)
+		go func() {
+			defer wg.Done()
+			for n := 0; time.Now().Before(end); n++ {
+				inflight.Add(1)
+				if paused.Load() {
+					inflight.Add(-1)
+					time.Sleep(time.Millisecond)
+					continue
+				}
+				if time.Now().After(s2) {
+					afterS2.Add(1) // a call that begins after the boundary S2 (and before the pause): it meets the rotation decision for S2
+				}
+				p := vk.Catch(func() { a.Write([]byte(fmt.Sprintf("w%d:%d\n", w, n))) })
+				inflight.Add(-1)
+				if p != nil {
+					mu.Lock()
+					if firstPanic == nil {
+						firstPanic = p
+					}
+					mu.Unlock()
+					return
+				}
+				time.Sleep(time.Duration(periodMS) * time.Millisecond)
+			}
+		}()
+	}
+	time.Sleep(time.Until(s1.Add(time.Duration(awayMS) * time.Millisecond)))
+	if err := os.Rename(dir, away); err != nil {
+		return fmt.Errorf("VERIF-INCONCLUSIVE: rename: %v", err)
+	}
+	time.Sleep(time.Until(s2.Add(time.Duration(releaseMS-30) * time.Millisecond)))
+	paused.Store(true)
+	attempted := afterS2.Load() > 0
+	time.Sleep(time.Until(s2.Add(time.Duration(releaseMS) * time.Millisecond)))
+	// release the stalled rotation: open the pipe's reading end (and keep draining it)
+	rd, err := os.OpenFile(filepath.Join(away, fifo), os.O_RDONLY|syscall.O_NONBLOCK, 0)
+	if err != nil {
+		return fmt.Errorf("VERIF-INCONCLUSIVE: opening the pipe: %v", err)
+	}
+	stopDrain := make(chan struct{})
+	go func() {
+		buf := make([]byte, 65536)
+		for {
+			select {
+			case <-stopDrain:
+				return
+			default:
+			}
+			if n, _ := rd.Read(buf); n == 0 {
+				time.Sleep(2 * time.Millisecond)
+			}
+		}
+	}()
+	// every call that was held by the stall returns now (the rotation of S2, if it had to wait for the
+	// stalled one, still finds the directory away and fails)
+	for deadline := time.Now().Add(15 * time.Second); inflight.Load() != 0; time.Sleep(time.Millisecond) {
+		if time.Now().After(deadline) {
+			close(stopDrain)
+			return fmt.Errorf("VERIF-HANG a write call had not returned 15 s after the stalled rotation was released")
+		}
+	}
+	time.Sleep(time.Until(s2.Add(time.Duration(restoreMS) * time.Millisecond)))
+	if err := os.Rename(away, dir); err != nil {
+		return fmt.Errorf("VERIF-INCONCLUSIVE: rename back: %v", err)
+	}
+	restoredAt := time.Now()
+	paused.Store(false)
+	done, _ := vk.Within(time.Until(end)+15*time.Second, wg.Wait)
+	close(stopDrain)
+	if !done {
+		return fmt.Errorf("VERIF-HANG a write call had not returned 15 s after the stalled rotation was released and the directory was back")
+	}
+	_ = vk.Catch(a.Stop)
+	_ = rd.Close()
+	if firstPanic != nil {
+		return fmt.Errorf("a write call panicked: %v", firstPanic)
+	}
+	if !restoredAt.Before(s2.Add(850 * time.Millisecond)) {
+		return fmt.Errorf("VERIF-INCONCLUSIVE: the scenario ran late (directory back only at %s)", restoredAt.Format("15:04:05.000")) // the machine stalled the harness itself
+	}
+	name2 := "roll.log." + s2.Format("20060102150405")
+	if !attempted {
+		return fmt.Errorf("VERIF-INCONCLUSIVE: no write was issued between the boundary and the pause") // cannot happen with the generated periods unless the machine stalls the writers
+	}
+	if _, err := os.Stat(filepath.Join(dir, name2)); err == nil {
+		return fmt.Errorf("the file %s was created in the middle of the interval %s: the rotation for that boundary failed while the directory was away (%s .. %s), and creation is due again at the next boundary - a rotation that had been stalled since %s and finished at %s brought its older interval back",
+			name2, s2.Format("15:04:05"), s1.Add(time.Duration(awayMS)*time.Millisecond).Format("15:04:05.000"), s2.Add(time.Duration(restoreMS)*time.Millisecond).Format("15:04:05.000"), s1.Format("15:04:05"), s2.Add(time.Duration(releaseMS)*time.Millisecond).Format("15:04:05.000"))
+	}
+	return nil
 }
